@@ -29,10 +29,10 @@ def main():
     prop, k = sys.argv[1].upper(), sys.argv[2]
     keep = "--keep" in sys.argv
     notests = "--no-tests" in sys.argv
-    wave = 2 if "--wave2" in sys.argv else 1
-    wt = "/tmp/seed/%s-%s" % ("w2" if wave == 2 else "wt", prop)
-    out = "/tmp/seed/%s-%s/change%s" % ("out2" if wave == 2 else "out", prop, k)
-    sid = "%s-%d" % (prop, int(k) + (3 if wave == 2 else 0))
+    wave = 3 if "--wave3" in sys.argv else (2 if "--wave2" in sys.argv else 1)
+    wt = "/tmp/seed/%s-%s" % ({1: "wt", 2: "w2", 3: "w3"}[wave], prop)
+    out = "/tmp/seed/%s-%s/change%s" % ({1: "out", 2: "out2", 3: "out3"}[wave], prop, k)
+    sid = "%s-%d" % (prop, int(k) + 3 * (wave - 1))
     patch = os.path.join(out, "patch.diff")
     demo = os.path.join(out, "demo.py")
     res = dict(property=prop, change=k)
@@ -87,7 +87,10 @@ def main():
     rc, o = sh("git status --short", cwd=wt)
     res["clean_after"] = (o.strip() == "")
     print(json.dumps(res, indent=1))
-    if keep:
+    accepted = res["demo_unchanged_rc"] == 0 and res["demo_changed_rc"] not in (0, None) and res.get("suite_ok", notests) and res["clean_after"]
+    if keep and not accepted:
+        shutil.rmtree(os.path.join(VERIF, "seeded", sid), ignore_errors=True)     # never keep an unconfirmed change
+    if keep and accepted:
         d = os.path.join(VERIF, "seeded", sid)
         os.makedirs(d, exist_ok=True)
         for fn in ("patch.diff", "demo.py", "notes.md"):
